@@ -113,6 +113,14 @@ func VerifyProof(root, key *felt.Felt, proof *ProofNodeSet, hash crypto.HashFn) 
 		return felt.Zero, nil
 	}
 
+	if proof == nil {
+		return felt.Zero, errors.New("nil proof node set")
+	}
+	// SetFelt keeps the low 251 bits only: a larger felt would be verified as another key
+	if key.Bits()[3]>>(contractClassTrieHeight-192) != 0 {
+		return felt.Zero, fmt.Errorf("key %s exceeds the trie height %d", key.String(), contractClassTrieHeight)
+	}
+
 	keyBits := new(Path).SetFelt(contractClassTrieHeight, key)
 	expected := *root
 	h := newHasher(hash, false)
@@ -123,9 +131,23 @@ func VerifyProof(root, key *felt.Felt, proof *ProofNodeSet, hash crypto.HashFn) 
 			return felt.Zero, fmt.Errorf("proof node not found, expected hash: %s", expected.String())
 		}
 
+		// Only edge and binary nodes are proof nodes
+		switch n := node.(type) {
+		case *trienode.BinaryNode:
+		case *trienode.EdgeNode:
+			if n.Child == nil || n.Path == nil {
+				return felt.Zero, errors.New("malformed edge node in the proof node set")
+			}
+		default:
+			return felt.Zero, fmt.Errorf("unexpected %T in the proof node set", node)
+		}
+
 		// Always recompute the hash from the node's content: the cached hash flag of a
-		// proof node (Prove copies it from the trie) is not part of the proof
-		_, nHash := h.proofHash(node)
+		// proof node (Prove copies it from the trie) is not part of the proof.
+		// The walk continues on the collapsed copy that was hashed (its children are hash or
+		// value nodes), never on the node as given: an embedded child node would otherwise be
+		// stepped over without being verified
+		collapsed, nHash := h.proofHash(node)
 
 		// Verify the hash matches
 		hashVal := felt.Felt(*nHash.(*trienode.HashNode))
@@ -133,7 +155,7 @@ func VerifyProof(root, key *felt.Felt, proof *ProofNodeSet, hash crypto.HashFn) 
 			return felt.Zero, fmt.Errorf("proof node hash mismatch, expected hash: %s, got hash: %s", expected.String(), nHash.String())
 		}
 
-		child := get(node, keyBits, false)
+		child := get(collapsed, keyBits, false)
 		switch cld := child.(type) {
 		case nil:
 			return felt.Zero, nil
@@ -151,10 +173,8 @@ func VerifyProof(root, key *felt.Felt, proof *ProofNodeSet, hash crypto.HashFn) 
 				return felt.Zero, errors.New("proof ends in a value node before the key is consumed")
 			}
 			return felt.Felt(*cld), nil
-		case *trienode.EdgeNode, *trienode.BinaryNode:
-			if hash, _ := cld.Cache(); hash != nil {
-				expected = felt.Felt(*hash)
-			}
+		default:
+			return felt.Zero, fmt.Errorf("unexpected %T below a proof node", cld)
 		}
 	}
 }
